@@ -683,6 +683,110 @@ theorem cache_sound_u32 (sigValid : SigOracle) (cfg : CacheConfig) (hist : List 
     [] hist _ (cache_provenanceG sigValid cfg serve hist)
     (fun r hr => ⟨hb r hr, hb r hr⟩) (by simp) hkey
 
+/-! ### several RRSIGs per RRset; the 64-bit wall clock -/
+
+theorem firstCandidate_spec (keyName : Name) (keyType : Nat) (start : Nat) (sigs : List Rrsig)
+    (i : Nat) (sig : Rrsig) (h : firstCandidate keyName keyType start sigs = some (i, sig)) :
+    start ≤ i ∧ sigs[i - start]? = some sig ∧ isCandidate keyName keyType i sig = true ∧
+    ∀ j, j < i - start → ∀ s, sigs[j]? = some s → isCandidate keyName keyType (start + j) s = false := by
+  induction sigs generalizing start with
+  | nil => simp [firstCandidate] at h
+  | cons x xs ih =>
+    simp only [firstCandidate] at h
+    split at h
+    · rename_i hc
+      simp only [Option.some.injEq, Prod.mk.injEq] at h
+      obtain ⟨rfl, rfl⟩ := h
+      refine ⟨Nat.le_refl _, by simp, hc, ?_⟩
+      intro j hj
+      omega
+    · rename_i hc
+      obtain ⟨h1, h2, h3, h4⟩ := ih (start + 1) h
+      refine ⟨by omega, ?_, h3, ?_⟩
+      · have : i - start = (i - (start + 1)) + 1 := by omega
+        rw [this, List.getElem?_cons_succ]; exact h2
+      · intro j hj s hs
+        cases j with
+        | zero =>
+          simp only [List.getElem?_cons_zero, Option.some.injEq] at hs
+          subst hs
+          simpa using hc
+        | succ j =>
+          rw [List.getElem?_cons_succ] at hs
+          have := h4 j (by omega) s hs
+          rw [show start + (j + 1) = start + 1 + j by omega]; exact this
+
+/-- **The reported `rrsig_index` is an index into the unfiltered RRSIG list, and the request the code
+evaluates is about exactly that RRSIG**: it is the first candidate; every RRSIG before it is a
+non-candidate (foreign signer, DS owner as signer, beyond the RRSIG cap). -/
+theorem toRequest_index (m : MultiRequest) (i : Nat) (h : m.toRequest.2 = some i) :
+    m.rrsigs[i]? = some m.toRequest.1.rrsig ∧ m.toRequest.1.skip = false ∧
+    isCandidate m.keyName m.keyType i m.toRequest.1.rrsig = true ∧
+    ∀ j, j < i → ∀ s, m.rrsigs[j]? = some s → isCandidate m.keyName m.keyType j s = false := by
+  unfold MultiRequest.toRequest at h ⊢
+  cases hf : firstCandidate m.keyName m.keyType 0 m.rrsigs with
+  | none => rw [hf] at h; simp at h
+  | some p =>
+    obtain ⟨i', sig⟩ := p
+    rw [hf] at h
+    simp only [Option.some.injEq] at h
+    subst h
+    obtain ⟨_, h2, h3, h4⟩ := firstCandidate_spec _ _ 0 _ _ _ hf
+    simp only [Nat.sub_zero, Nat.zero_add] at h2 h4
+    exact ⟨h2, rfl, h3, h4⟩
+
+/-- without a candidate nothing is Secure -/
+theorem toRequest_none (sigValid : SigOracle) (m : MultiRequest) (h : m.toRequest.2 = none) :
+    (freshVerdict sigValid m.toRequest.1).proof = .bogus := by
+  unfold MultiRequest.toRequest at h ⊢
+  cases hf : firstCandidate m.keyName m.keyType 0 m.rrsigs with
+  | none => simp [freshVerdict, noLookup]
+  | some p => rw [hf] at h; simp at h
+
+theorem toRequest_clock (m : MultiRequest) (t : Nat) (h : clock32 t = clock32 m.clock) :
+    ({ m with clock := t } : MultiRequest).toRequest = m.toRequest := by
+  unfold MultiRequest.toRequest
+  simp only [h]
+
+/-- **The verdict depends on the wall clock only through `clock mod 2³²`** (`current_time() as u32`):
+a step at clock `t` is the step at clock `t mod 2³²`, and clocks that differ by a multiple of 2³² give
+the same step — in particular nothing "sticks" at `u32::MAX` from 2³² s on. -/
+theorem verdict_clock_mod (sigValid : SigOracle) (cfg : CacheConfig) (c : Cache) (m : MultiRequest) :
+    validateM sigValid cfg c { m with clock := m.clock % M32 } = validateM sigValid cfg c m := by
+  unfold validateM
+  rw [toRequest_clock m _ (by simp [clock32, Nat.mod_mod])]
+
+theorem verdict_clock_period (sigValid : SigOracle) (cfg : CacheConfig) (c : Cache) (m : MultiRequest)
+    (k : Nat) :
+    validateM sigValid cfg c { m with clock := m.clock + k * M32 } = validateM sigValid cfg c m := by
+  unfold validateM
+  rw [toRequest_clock m _ (by simp [clock32, Nat.add_mul_mod_self_right])]
+
+theorem clock32_lt (t : Nat) : clock32 t < M := Nat.mod_lt _ (by decide)
+
+/-- a history of multi-RRSIG requests is the history of the single-RRSIG requests the code evaluates -/
+def runHistoryM (sigValid : SigOracle) (cfg : CacheConfig) (hist : List MultiRequest) :
+    List (Verdict × Bool) :=
+  runHistory sigValid cfg [] (hist.map (·.toRequest.1))
+
+/-- **`cache_sound` for RRsets with several RRSIGs and a 64-bit clock.**  For every history: every
+Secure verdict, fresh or cached, is for content that passed `verify_rrset_with_dnskey` with the RRSIG
+`m.toRequest.1.rrsig` — by `toRequest_index` the RRSIG at the reported `rrsig_index` of the unfiltered
+list, the one that is handed the proof — while `clock mod 2³²` is inside **that** RRSIG's
+`[inception, expiration]`, and with a TTL of at most **its** remaining lifetime; no other RRSIG of the
+RRset (however long its claimed validity) enters. -/
+theorem cache_sound_multi (sigValid : SigOracle) (cfg : CacheConfig) (hist : List MultiRequest)
+    (hb : ∀ m ∈ hist, m.toRequest.1.rrsig.input.inception < M ∧ m.toRequest.1.rrsig.input.expiration < M)
+    (hkey : (hist.map (·.toRequest.1)).Pairwise KeyFaithful) :
+    AllSecure (fun r v => SecureOK sigValid r ∧ TtlOK r v) (hist.map (·.toRequest.1))
+      (runHistoryM sigValid cfg hist) := by
+  apply cache_sound_u32 sigValid cfg _ _ hkey
+  intro r hr
+  obtain ⟨m, hm, rfl⟩ := List.mem_map.1 hr
+  refine ⟨?_, (hb m hm).1, (hb m hm).2⟩
+  unfold MultiRequest.toRequest
+  split <;> exact clock32_lt _
+
 /-! ### concrete values: non-vacuity -/
 
 deriving instance DecidableEq for Except
@@ -698,7 +802,7 @@ def recA (ttl : Nat) (o : Bytes) : Record := ⟨nameA, 1, 1, ttl, .a o⟩
 def acceptAll : SigOracle := fun _ _ _ => true
 /-- validate `a. A 10.0.0.1` (TTL `ttl`) at validator time `now`, monotonic time `inst` -/
 def reqA (ttl now inst : Nat) : Request :=
-  ⟨[1], [(key0, .secure)], sig0, nameA, 1, [recA ttl [10, 0, 0, 1]], now, inst⟩
+  ⟨[1], [(key0, .secure)], sig0, nameA, 1, [recA ttl [10, 0, 0, 1]], now, inst, false⟩
 
 /-- `secure_implies_checks` / `ttl_le_remaining` are not vacuous: inside the window the verdict is
 Secure with TTL `min 3600 3600 (1010 − 1000) = 10`; one second after expiration, and at distance
@@ -727,7 +831,7 @@ undefined; it is now never Secure, like every RRSIG whose expiration is before i
 example :
     let sigW : Rrsig := { sig0 with input := { sig0.input with inception := 1010 + HALF } }
     let sigE : Rrsig := { sig0 with input := { sig0.input with inception := 2000, expiration := 1000 } }
-    let req : Rrsig → Nat → Request := fun sg now => ⟨[1], [(key0, .secure)], sg, nameA, 1, [recA 3600 [10, 0, 0, 1]], now, 0⟩
+    let req : Rrsig → Nat → Request := fun sg now => ⟨[1], [(key0, .secure)], sg, nameA, 1, [recA 3600 [10, 0, 0, 1]], now, 0, false⟩
     (freshVerdict acceptAll (req sigW 1009)).proof = .bogus ∧
     (freshVerdict acceptAll (req sigW 1010)).proof = .bogus ∧
     (freshVerdict acceptAll (req sigE 999)).proof = .bogus ∧
